@@ -716,6 +716,9 @@ impl ser::SerializeMap for MapSerializer<'_> {
     {
         let mut se = Serializer::new();
         let key = key.serialize(&mut se)?;
+        // A fresh serializer for the value: the mode left behind by the key
+        // (e.g. array) must not apply to the value
+        let mut se = Serializer::new();
         let value = value.serialize(&mut se)?;
         self.map.insert(key, value);
         Ok(())
